@@ -56,8 +56,8 @@ ASSUMPTIONS = ["option string values are sequences of Unicode scalar values (no 
 JOB_TIMEOUT = {"quick": 300, "thorough": 2400}
 
 SIZES = {
-    "quick": {"rt_shards": 8, "rt_assign": 100, "as_shards": 2, "as_n": 4000, "pipe_shards": 3, "pipe_n": 800,
-              "fuzz_shards": 10, "fuzz_n": 5000},
+    "quick": {"rt_shards": 8, "rt_assign": 60, "as_shards": 2, "as_n": 2500, "pipe_shards": 2, "pipe_n": 800,
+              "fuzz_shards": 8, "fuzz_n": 4000},
     "thorough": {"rt_shards": 16, "rt_assign": 3000, "as_shards": 8, "as_n": 60000, "pipe_shards": 16, "pipe_n": 15000,
                  "fuzz_shards": 32, "fuzz_n": 60000},
 }
@@ -68,7 +68,11 @@ KNOWN_STR_SPECIAL = set('"\\\n\f\v\r')
 
 # ----------------------------------------------------------------------------- plan
 def plan(tier, seed):
-    z = SIZES[tier]
+    z = dict(SIZES[tier])
+    scale = float(os.environ.get("XV_C18_SCALE", "1"))  # self-test runs only (smaller workload; finish() then reports
+    if scale != 1:                                        # "inconclusive" unless a violation is found first)
+        for k in ("rt_assign", "as_n", "pipe_n", "fuzz_n"):
+            z[k] = max(1, int(z[k] * scale))
     jobs = []
     for i in range(z["rt_shards"]):
         jobs.append({"kind": "rt", "shard": i, "nshards": z["rt_shards"], "n": z["rt_assign"], "seed": seed * 100003 + i})
@@ -1009,16 +1013,17 @@ def finish(agg, tier):
     inc = []
     q = tier == "quick"
     need = {
-        "rt_ok": 8000 if q else 200000, "argspec_ok": 3000 if q else 60000, "pipelines_ok": 600 if q else 20000,
-        "fuzz_strings": 30000 if q else 800000, "fuzz_real_ok": 3000 if q else 80000, "fuzz_real_reject": 8000 if q else 200000,
-        "fuzz_pipeline_built": 300 if q else 8000, "fuzz_reprint_ok": 2000 if q else 50000,
-        "anchor:ArgSpec.__str__": 10000, "anchor:ArgSpec._spec_parameter_type_str": 10000,
-        "anchor:ArgSpecConvertible.from_spec": 10000, "anchor:ArgSpecConvertible.spec": 10000,
-        "anchor:ArgSpec.normalize_parameter_names": 10000, "anchor:_convert_arg_to_type": 10000,
-        "anchor:PipelineLexer._generator": 30000, "anchor:PipelineLexer.lex": 100000, "anchor:_parse_spec": 30000,
-        "anchor:_parse_pass_parameters": 20000, "anchor:_parse_parameter_value_element": 20000,
-        "anchor:PassPipeline.parse_spec": 2000,
+        "rt_ok": 4000, "argspec_ok": 5000, "pipelines_ok": 600, "fuzz_strings": 20000, "fuzz_real_ok": 5000,
+        "fuzz_real_reject": 6000, "fuzz_pipeline_built": 300, "fuzz_reprint_ok": 8000,
+        "anchor:ArgSpec.__str__": 15000, "anchor:ArgSpec._spec_parameter_type_str": 30000,
+        "anchor:ArgSpecConvertible.from_spec": 6000, "anchor:ArgSpecConvertible.spec": 6000,
+        "anchor:ArgSpec.normalize_parameter_names": 6000, "anchor:_convert_arg_to_type": 10000,
+        "anchor:PipelineLexer._generator": 30000, "anchor:PipelineLexer.lex": 300000, "anchor:parse_pipeline": 30000,
+        "anchor:_parse_spec": 60000, "anchor:_parse_pass_parameters": 20000, "anchor:_parse_parameter_value_element": 60000,
+        "anchor:PassPipeline.parse_spec": 4000,
     }
+    if not q:
+        need = {k: n * 30 for k, n in need.items()}
     for k, n in need.items():
         if c.get(k, 0) < n:
             inc.append(f"{k} = {c.get(k, 0)} < {n}")
